@@ -30,7 +30,7 @@ def main():
              funcs=['orc_parse_handle_directive', 'orc_parse_handle_dotn', 'orc_parse_handle_dotm', 'orc_parse_handle_flags', 'orc_program_set_constant_n', 'orc_program_set_n_multiple', 'orc_program_set_n_minimum', 'orc_program_set_n_maximum', 'orc_program_set_constant_m', 'orc_program_set_2d'])
            for k in range(10)]
     js += [J('c15.literal.kind%d' % k, TUS, 'h_literal', defs=['LKIND=%d' % k, '__NO_CTYPE'], unwind=70, timeout=to, ub_notes=UB, funcs=['orc_program_add_constant_str', '_strtoll'])
-           for k in range(7)]
+           for k in range(8)]
     js += [J('c15.opcode_order.x%d.op%d.swap%d' % (a, w, sw), TUS, 'h_opcode_order', defs=['OPRE=%d' % a, 'OWHICH=%d' % w, 'OSWAP=%d' % sw, '__NO_CTYPE'], unwind=70, timeout=to, mem_gb=12,
              ub_notes=UB, funcs=['orc_parse_handle_opcode', 'orc_program_append_str_n']) for a in (0, 1, 2) for w in (0, 1) for sw in (0, 1)]
     js.append(J('c15.format_tokens', TUS, 'h_format_tokens', defs=['FL=%d' % (5 if t == 'quick' else 6), '__NO_CTYPE'], unwind=20, timeout=to, mem_gb=12,
